@@ -1,4 +1,5 @@
 import Autobean.Proofs.Views
+import Autobean.Proofs.PyDict
 /-
 C10 — all views of a repeated field stay consistent with each other.
 
@@ -316,7 +317,8 @@ theorem view_setSlice_size_refused (w : World) (k : Nat) (v : View) (a b c : Opt
     w.step (.view k (.setSlice a b c vals)) = (w, some "ValueError:size") :=
   setSlice_size_refused w k v a b c vals s e st hk hv hs hne
 
-/-- Mapping views (`raw_meta`, `meta`): on a consistent view a key denotes the FIRST element in list order whose
+/-- (Superseded by `meta_py_dict` below, which compares with the independent reference `Model/PyDict.lean`; kept.)
+Mapping views (`raw_meta`, `meta`): on a consistent view a key denotes the FIRST element in list order whose
 key matches (`view[key]`, `key in view`), and every key operation is the positional operation at that position
 (to which `view_py_list` applies) or, when no element matches, `KeyError` / an `append` / the default.
 Partial: this reduces the key operations to the list operations; it is not stated against an independent
@@ -342,6 +344,226 @@ theorem meta_py_dict_partial (v : View) (items : List Item) (hv : v.rawIdx = fil
         | none => v.apply items (.append x)) := by
   obtain ⟨h1, h2, h3⟩ := findKey_eq v items hv key
   refine ⟨h1, h2, h3, ?_, ?_, ?_, ?_⟩ <;> simp only [View.apply] <;> cases v.findKey items key <;> rfl
+
+/-! ## Mapping views against an independent ordered-dictionary reference (`Model/PyDict.lean`) -/
+
+/-- A mapping view read as a dictionary: the `(key, value)` entries of the view's items in list order.  The key of an
+item is its value code (`item.key`); `conv` is what the view shows of an item (the item itself for `raw_meta`, its
+`.value` for `meta`; any function of the item). -/
+def dictOf {β : Type} (v : View) (conv : Item → β) (items : List Item) : PyDict.PyMultiDict β :=
+  (filterItems v.pred items).map fun x => (x.val, conv x)
+
+/-- What the caller observes of one mapping call: the dictionary afterwards, or the exception. -/
+def dictOutcome {β : Type} (v : View) (conv : Item → β) (r : World × Option String) :
+    Except String (PyDict.PyMultiDict β) :=
+  (World.outcome r).map (dictOf v conv)
+
+theorem dictOf_findIdx {β : Type} (v : View) (conv : Item → β) (items : List Item) (key : Nat) :
+    (dictOf v conv items).findIdx? (fun p => p.1 == key) = (filterItems v.pred items).findIdx? (fun y => y.val == key) :=
+  PyDict.findIdx_map_key (filterItems v.pred items) (fun x => x.val) conv key
+
+theorem step_key_none (w : World) (k : Nat) (v : View) (op : ViewOp) (hk : w.views[k]? = some v)
+    {e : String} (hap : v.apply w.items op = .error e) : w.step (.view k op) = (w, some e) := by
+  rw [step_view_eq w k v op hk, hap]
+
+theorem step_key_same (w : World) (k : Nat) (v : View) (op op' : ViewOp) (hk : w.views[k]? = some v)
+    (hap : v.apply w.items op = v.apply w.items op') : w.step (.view k op) = w.step (.view k op') := by
+  rw [step_view_eq w k v op hk, step_view_eq w k v op' hk, hap]
+
+/-- **Reading a mapping view = reading the reference dictionary.**  `view[key]` (first match, `KeyError`),
+`key in view`, `keys()`, `values()`, `items()` (list order) and `len`. -/
+theorem meta_py_dict_read {β : Type} (v : View) (items : List Item) (hv : v.rawIdx = filterIdx v.pred items)
+    (conv : Item → β) (key : Nat) :
+    (v.getKey items key).map conv = PyDict.get (dictOf v conv items) key
+    ∧ v.containsKey items key = PyDict.contains (dictOf v conv items) key
+    ∧ (v.iter items).map (·.val) = PyDict.keys (dictOf v conv items)
+    ∧ (v.iter items).map conv = PyDict.values (dictOf v conv items)
+    ∧ (v.iter items).map (fun x => (x.val, conv x)) = PyDict.items (dictOf v conv items)
+    ∧ v.len = PyDict.len (dictOf v conv items) := by
+  obtain ⟨_, h2, h3⟩ := findKey_eq v items hv key
+  have hiter : v.iter items = filterItems v.pred items := by
+    unfold View.iter; rw [hv, filterIdx_filterMap_get]
+  refine ⟨?_, ?_, ?_, ?_, ?_, ?_⟩
+  · rw [h2]
+    unfold dictOf
+    rw [PyDict.get_map_key (filterItems v.pred items) (fun x => x.val) conv key]
+    cases (filterItems v.pred items).find? (fun y => y.val == key) <;> rfl
+  · rw [h3, PyDict.contains_eq_any]; simp [dictOf, List.any_map, Function.comp_def]
+  · rw [hiter]; simp [PyDict.keys, dictOf]
+  · rw [hiter]; simp [PyDict.values, dictOf]
+  · rw [hiter]; rfl
+  · unfold View.len; rw [hv, filterIdx_length]; simp [PyDict.len, dictOf]
+
+/-- **`del view[key]`** removes the first entry with that key, or raises `KeyError` and changes nothing. -/
+theorem meta_py_dict_del {β : Type} (w : World) (k : Nat) (v : View) (conv : Item → β) (key : Nat)
+    (hk : w.views[k]? = some v) (hv : v.rawIdx = filterIdx v.pred w.items) :
+    dictOutcome v conv (w.step (.view k (.delKey key))) = PyDict.del (dictOf v conv w.items) key
+    ∧ ((w.step (.view k (.delKey key))).2 ≠ none → (w.step (.view k (.delKey key))).1 = w) := by
+  obtain ⟨hfk, _, _⟩ := findKey_eq v w.items hv key
+  have hD := dictOf_findIdx v conv w.items key
+  cases hfi : (filterItems v.pred w.items).findIdx? (fun y => y.val == key) with
+  | none =>
+    have hap : v.apply w.items (.delKey key) = .error "KeyError" := by simp [View.apply, hfk, hfi]
+    rw [step_key_none w k v _ hk hap, PyDict.del_of_findIdx_none _ _ (hD.trans hfi)]
+    exact ⟨rfl, fun _ => rfl⟩
+  | some i =>
+    have hap : v.apply w.items (.delKey key) = v.apply w.items (.delInt i) := by simp [View.apply, hfk, hfi]
+    rw [step_key_same w k v _ _ hk hap, PyDict.del_of_findIdx_some _ _ (hD.trans hfi)]
+    have hi := PyDict.findIdx_some_lt hfi
+    obtain ⟨h1, h2⟩ := spec_delInt w k v (fun x => (x.val, conv x)) i hk hv
+    refine ⟨?_, h2⟩
+    have href : PyList.delItem (filterItems v.pred w.items) (i : Int) = .ok ((filterItems v.pred w.items).eraseIdx i) := by
+      simp [PyList.delItem, PyList.normIndex_of_nat hi, bind, Except.bind, pure, Except.pure]
+    rw [href] at h1
+    unfold dictOutcome
+    refine h1.trans ?_
+    simp [Except.map, dictOf, PyDict.map_eraseIdx]
+
+/-- **`view.pop(key)` / `view.pop(key, default)`** removes the first entry with that key; for a missing key the
+dictionary is unchanged (default given) or `KeyError` is raised and nothing changes. -/
+theorem meta_py_dict_pop {β : Type} (w : World) (k : Nat) (v : View) (conv : Item → β) (key : Nat) (dflt : Bool)
+    (hk : w.views[k]? = some v) (hv : v.rawIdx = filterIdx v.pred w.items) :
+    dictOutcome v conv (w.step (.view k (.popKey key dflt))) = (PyDict.pop (dictOf v conv w.items) key dflt).map (·.2)
+    ∧ ((w.step (.view k (.popKey key dflt))).2 ≠ none → (w.step (.view k (.popKey key dflt))).1 = w) := by
+  obtain ⟨hfk, _, _⟩ := findKey_eq v w.items hv key
+  have hD := dictOf_findIdx v conv w.items key
+  cases hfi : (filterItems v.pred w.items).findIdx? (fun y => y.val == key) with
+  | none =>
+    rw [PyDict.pop_of_findIdx_none _ _ _ (hD.trans hfi)]
+    cases dflt with
+    | false =>
+      have hap : v.apply w.items (.popKey key false) = .error "KeyError" := by simp [View.apply, hfk, hfi]
+      rw [step_key_none w k v _ hk hap]
+      exact ⟨rfl, fun _ => rfl⟩
+    | true =>
+      have hap : v.apply w.items (.popKey key true) = .ok [] := by simp [View.apply, hfk, hfi, pure, Except.pure]
+      rw [step_view_eq w k v _ hk, hap]
+      exact ⟨rfl, fun _ => rfl⟩
+  | some i =>
+    have hap : v.apply w.items (.popKey key dflt) = v.apply w.items (.pop i) := by simp [View.apply, hfk, hfi]
+    obtain ⟨p, _, hpop⟩ := PyDict.pop_of_findIdx_some (dictOf v conv w.items) key dflt (hD.trans hfi)
+    rw [step_key_same w k v _ _ hk hap, hpop]
+    have hi := PyDict.findIdx_some_lt hfi
+    obtain ⟨h1, h2⟩ := spec_pop w k v (fun x => (x.val, conv x)) i hk hv
+    refine ⟨?_, h2⟩
+    have href : (PyList.pop (filterItems v.pred w.items) (i : Int)).map (·.1)
+        = .ok ((filterItems v.pred w.items).eraseIdx i) := by
+      simp [PyList.pop, PyList.normIndex_of_nat hi, bind, Except.bind, pure, Except.pure, List.getElem?_eq_getElem hi,
+        Except.map]
+    rw [href] at h1
+    unfold dictOutcome
+    refine h1.trans ?_
+    simp [Except.map, dictOf, PyDict.map_eraseIdx]
+
+/-- **`raw_meta[key] = item`** (the item carries that key: `x.val = key`): the first entry with the key gets the new
+value in place (position kept), or `(key, item)` is appended.  Never raises in the model (re-use of attached nodes is
+C19's). -/
+theorem meta_py_dict_set_raw {β : Type} (w : World) (k : Nat) (v : View) (conv : Item → β) (key : Nat) (x : Item)
+    (hk : w.views[k]? = some v) (hv : v.rawIdx = filterIdx v.pred w.items)
+    (hconv : ∀ old new : Item, v.upd.applies old new = true → conv { old with val := new.val } = conv new)
+    (hx : v.pred x.ty = true) (hkey : x.val = key) :
+    dictOutcome v conv (w.step (.view k (.setKeyRaw key x))) = .ok (PyDict.set (dictOf v conv w.items) key (conv x)) := by
+  obtain ⟨hfk, _, _⟩ := findKey_eq v w.items hv key
+  have hD := dictOf_findIdx v conv w.items key
+  have hconv' : ∀ old new : Item, v.upd.applies old new = true →
+      (fun y : Item => (y.val, conv y)) { old with val := new.val } = (fun y : Item => (y.val, conv y)) new := by
+    intro old new h; simp [hconv old new h]
+  cases hfi : (filterItems v.pred w.items).findIdx? (fun y => y.val == key) with
+  | none =>
+    have hap : v.apply w.items (.setKeyRaw key x) = v.apply w.items (.append x) := by simp [View.apply, hfk, hfi]
+    rw [step_key_same w k v _ _ hk hap, PyDict.set_of_findIdx_none _ _ _ (hD.trans hfi)]
+    obtain ⟨h1, _⟩ := spec_append w k v (fun y => (y.val, conv y)) x hk hx
+    unfold dictOutcome
+    refine h1.trans ?_
+    simp [Except.map, dictOf, PyList.append, hkey]
+  | some i =>
+    have hap : v.apply w.items (.setKeyRaw key x) = v.apply w.items (.setInt i x) := by simp [View.apply, hfk, hfi]
+    rw [step_key_same w k v _ _ hk hap, PyDict.set_of_findIdx_some _ _ _ (hD.trans hfi)]
+    have hi := PyDict.findIdx_some_lt hfi
+    obtain ⟨h1, _⟩ := spec_setInt w k v (fun y => (y.val, conv y)) i x hk hv hconv' hx
+    have href : PyList.setItem (filterItems v.pred w.items) (i : Int) x = .ok ((filterItems v.pred w.items).set i x) := by
+      simp [PyList.setItem, PyList.normIndex_of_nat hi, bind, Except.bind, pure, Except.pure]
+    rw [href] at h1
+    unfold dictOutcome
+    refine h1.trans ?_
+    simp [Except.map, dictOf, List.map_set, hkey]
+
+/-- **`meta[key] = value`** (`x = MetaItem.from_value(key, value)`, so `x.val = key`): a missing key appends
+`(key, x)`.  For an existing key the Python assigns `item.value = value` on the first matching item — the item object
+stays where it is and the list is not touched; the item's own value is outside this model (it is C09's
+`opt_value_roundtrip`), so at this level the entry keeps its value `b` and the result is `set d key b`, i.e. `d`. -/
+theorem meta_py_dict_set_val {β : Type} (w : World) (k : Nat) (v : View) (conv : Item → β) (key : Nat) (x : Item)
+    (hk : w.views[k]? = some v) (hv : v.rawIdx = filterIdx v.pred w.items)
+    (hx : v.pred x.ty = true) (hkey : x.val = key) :
+    dictOutcome v conv (w.step (.view k (.setKeyVal key x))) =
+      .ok (PyDict.set (dictOf v conv w.items) key
+        (match PyDict.get (dictOf v conv w.items) key with
+          | .ok b => b
+          | .error _ => conv x))
+    ∧ (PyDict.contains (dictOf v conv w.items) key = true → (w.step (.view k (.setKeyVal key x))).1 = w) := by
+  obtain ⟨hfk, _, _⟩ := findKey_eq v w.items hv key
+  have hD := dictOf_findIdx v conv w.items key
+  cases hfi : (filterItems v.pred w.items).findIdx? (fun y => y.val == key) with
+  | none =>
+    have hap : v.apply w.items (.setKeyVal key x) = v.apply w.items (.append x) := by simp [View.apply, hfk, hfi]
+    rw [step_key_same w k v _ _ hk hap, PyDict.set_of_findIdx_none _ _ _ (hD.trans hfi),
+      PyDict.get_of_findIdx_none _ _ (hD.trans hfi)]
+    obtain ⟨h1, _⟩ := spec_append w k v (fun y => (y.val, conv y)) x hk hx
+    refine ⟨?_, ?_⟩
+    · unfold dictOutcome
+      refine h1.trans ?_
+      simp [Except.map, dictOf, PyList.append, hkey]
+    · intro hc
+      rw [PyDict.contains_eq_any] at hc
+      have : (dictOf v conv w.items).findIdx? (fun p => p.1 == key) ≠ none := by
+        intro hn
+        rw [List.findIdx?_eq_none_iff] at hn
+        rw [List.any_eq_true] at hc
+        obtain ⟨p, hp, hpk⟩ := hc
+        exact absurd hpk (by simpa using hn p hp)
+      exact absurd (hD.trans hfi) this
+  | some i =>
+    have hap : v.apply w.items (.setKeyVal key x) = .ok [] := by simp [View.apply, hfk, hfi, pure, Except.pure]
+    obtain ⟨p, _, _, hg⟩ := PyDict.get_of_findIdx_some (dictOf v conv w.items) key (hD.trans hfi)
+    rw [step_view_eq w k v _ hk, hap, hg]
+    simp only
+    rw [PyDict.set_get_self _ _ _ hg]
+    exact ⟨rfl, fun _ => rfl⟩
+
+/-- **`meta_py_dict`** — the mapping views (`raw_meta`, `meta`) against the independent ordered-dictionary reference of
+`Model/PyDict.lean` (association list, first match): on a consistent view (`views_inv`), with `d` the view's
+`(key, value)` list,
+* reading: `view[key]`, `key in view`, `keys()`, `values()`, `items()`, `len` are `get`, `contains`, `keys`, … of `d`;
+* `del view[key]` = `del d key` (missing key: `KeyError`, nothing changed);
+* `view.pop(key[, default])` leaves `pop d key` (missing key: unchanged / `KeyError`, nothing changed);
+* `raw_meta[key] = item` and `meta[key] = value` leave `set d key …`: first match updated in place, else appended.
+Supersedes `meta_py_dict_partial`. -/
+theorem meta_py_dict {β : Type} (w : World) (k : Nat) (v : View) (conv : Item → β) (key : Nat) (x : Item) (dflt : Bool)
+    (hk : w.views[k]? = some v) (hv : v.rawIdx = filterIdx v.pred w.items)
+    (hconv : ∀ old new : Item, v.upd.applies old new = true → conv { old with val := new.val } = conv new)
+    (hx : v.pred x.ty = true) (hkey : x.val = key) :
+    let d := dictOf v conv w.items
+    (v.getKey w.items key).map conv = PyDict.get d key
+    ∧ v.containsKey w.items key = PyDict.contains d key
+    ∧ (v.iter w.items).map (·.val) = PyDict.keys d
+    ∧ (v.iter w.items).map conv = PyDict.values d
+    ∧ v.len = PyDict.len d
+    ∧ dictOutcome v conv (w.step (.view k (.delKey key))) = PyDict.del d key
+    ∧ dictOutcome v conv (w.step (.view k (.popKey key dflt))) = (PyDict.pop d key dflt).map (·.2)
+    ∧ dictOutcome v conv (w.step (.view k (.setKeyRaw key x))) = .ok (PyDict.set d key (conv x))
+    ∧ dictOutcome v conv (w.step (.view k (.setKeyVal key x))) =
+        .ok (PyDict.set d key (match PyDict.get d key with
+          | .ok b => b
+          | .error _ => conv x))
+    ∧ (∀ op, op = ViewOp.delKey key ∨ op = ViewOp.popKey key dflt →
+        (w.step (.view k op)).2 ≠ none → (w.step (.view k op)).1 = w) := by
+  intro d
+  obtain ⟨r1, r2, r3, r4, _, r6⟩ := meta_py_dict_read v w.items hv conv key
+  refine ⟨r1, r2, r3, r4, r6, (meta_py_dict_del w k v conv key hk hv).1, (meta_py_dict_pop w k v conv key dflt hk hv).1,
+    meta_py_dict_set_raw w k v conv key x hk hv hconv hx hkey, (meta_py_dict_set_val w k v conv key x hk hv hx hkey).1, ?_⟩
+  rintro op (rfl | rfl)
+  · exact (meta_py_dict_del w k v conv key hk hv).2
+  · exact (meta_py_dict_pop w k v conv key dflt hk hv).2
 
 /-! ## Non-vacuity: the hypotheses are satisfiable by concrete, non-trivial states -/
 
@@ -393,5 +615,31 @@ example : ViewCallSpec world0 0 ⟨isTag, .always, [0, 2]⟩ (.setSlice none non
 /-- `rep_py_list` instantiated on an extended negative slice. -/
 example : (Raw.apply items0 (.delSlice none none (some (-3)))).map (·.1) = .ok [⟨2, 1, 6⟩, ⟨3, 0, 7⟩] := by
   rw [rep_py_list items0 (.delSlice none none (some (-3))) _ rfl rfl]; rfl
+
+/-! `meta_py_dict` instantiated: meta items `a: ⏎ ; comment ⏎ b: ⏎ a:` (type tag 3 = MetaItem, key codes 5 = `a`, 6 = `b`; the
+key `a` occurs twice), the mapping view shows each item by its identity. -/
+private def itemsM : List Item := [⟨1, 3, 5⟩, ⟨2, 2, 0⟩, ⟨3, 3, 6⟩, ⟨4, 3, 5⟩]
+private def isMeta : Nat → Bool := fun t => t == 3
+private def worldM : World := ({ items := itemsM } : World).register isMeta .never
+private def viewM : View := ⟨isMeta, .never, [0, 2, 3]⟩
+
+example : worldM.views[0]? = some viewM := rfl
+example : viewM.rawIdx = filterIdx viewM.pred worldM.items := by decide
+example : dictOf viewM (·.id) worldM.items = [(5, 1), (6, 3), (5, 4)] := by decide
+/-- `del raw_meta['a']` removes the FIRST `a`; `raw_meta['a'] = item` replaces the first `a` in place; `raw_meta['c'] = item`
+appends; `raw_meta.pop('z', default)` changes nothing; `del raw_meta['z']` is `KeyError`. -/
+example : dictOutcome viewM (·.id) (worldM.step (.view 0 (.delKey 5))) = .ok [(6, 3), (5, 4)] := by
+  rw [(meta_py_dict_del worldM 0 viewM (·.id) 5 rfl (by decide)).1]; rfl
+example : dictOutcome viewM (·.id) (worldM.step (.view 0 (.setKeyRaw 5 ⟨9, 3, 5⟩))) = .ok [(5, 9), (6, 3), (5, 4)] := by
+  rw [meta_py_dict_set_raw worldM 0 viewM (·.id) 5 ⟨9, 3, 5⟩ rfl (by decide)
+    (by intro o n h; simp [viewM, UpdKind.applies] at h) rfl rfl]; rfl
+example : dictOutcome viewM (·.id) (worldM.step (.view 0 (.setKeyVal 7 ⟨9, 3, 7⟩))) =
+    .ok [(5, 1), (6, 3), (5, 4), (7, 9)] := by
+  rw [(meta_py_dict_set_val worldM 0 viewM (·.id) 7 ⟨9, 3, 7⟩ rfl (by decide) rfl rfl).1]; rfl
+example : dictOutcome viewM (·.id) (worldM.step (.view 0 (.popKey 8 true))) = .ok [(5, 1), (6, 3), (5, 4)] := by
+  rw [(meta_py_dict_pop worldM 0 viewM (·.id) 8 true rfl (by decide)).1]; rfl
+example : dictOutcome viewM (·.id) (worldM.step (.view 0 (.delKey 8))) = .error "KeyError" := by
+  rw [(meta_py_dict_del worldM 0 viewM (·.id) 8 rfl (by decide)).1]; rfl
+example : PyDict.pop [(5, 1), (6, 3), (5, 4)] 5 false = .ok (some 1, [(6, 3), (5, 4)]) := rfl
 
 end Autobean.C10
